@@ -197,8 +197,8 @@ def bounds_cover_code(chk, prog, roots, exempt=()):
             continue
         seen.add(x)
         fx = prog.funcs.get(x)
-        if not fx or fx.get("external"):
-            continue
+        if not fx or fx.get("external") or x in exempt:
+            continue      # helpers reached only through an exempt function are exempt with it
         for b in fx["blocks"]:
             for ins in b["instrs"]:
                 if ins["op"] == "Call" and ins["call"]["mode"] == "static":
